@@ -9,11 +9,15 @@ Abs(p) == IF p.k = "F" THEN Fib([k \in 1..Len(p.e) |-> <<p.e[k][1], Abs(p.e[k][2
           ELSE IF p.k = "L" THEN Leaf(p.v) ELSE [k |-> "X"]
 Judge(B) ==
   LET root == Abs(B.pre.root)  sp == B.spec  sh == B.shapes  n == Len(sp)
-      qok(q) == CASE q.q = "fiber" -> q.res = FiberAtBits(sp, sh, root, q.pt)
-                  [] q.q = "rank" -> q.res = RankBits(sp, sh, root, q.r)
+      qokr(q, rt) == CASE q.q = "fiber" -> q.res = FiberAtBits(sp, sh, rt, q.pt)
+                  [] q.q = "rank" -> q.res = RankBits(sp, sh, rt, q.r)
                   [] q.q = "root" -> q.res = RootBits(B.rootspec)
-                  [] q.q = "tensor" -> q.res = TensorBits(sp, B.rootspec, sh, root)
-                  [] q.q = "subtree" -> q.res = SubTreeAt(sp, sh, root, q.pt, 0)
+                  [] q.q = "tensor" -> q.res = TensorBits(sp, B.rootspec, sh, rt)
+                  [] q.q = "subtree" -> q.res = SubTreeAt(sp, sh, rt, q.pt, 0)
+                  [] OTHER -> TRUE
+      \* the same Format object asked again after the tensor grew: the answers describe the tensor as it is NOW
+      root2 == IF B.grown = 1 THEN Abs(B.pre2.root) ELSE root
+      qok(q) == CASE q.q \in {"fiber", "rank", "root", "tensor", "subtree"} -> qokr(q, root)
                   [] q.q = "elem" -> q.res = FillI(sp[q.r].c) + FillI(sp[q.r].p)
                   [] q.q = "field" -> q.res = q.exp_default          \* getFormat / getLayout / get*Bits of an omitted field
                   [] OTHER -> TRUE
@@ -21,6 +25,7 @@ Judge(B) ==
                    [] q.q = "subtree" -> "P:C18:subtree" [] OTHER -> "P:C18:spec-defaults"
   IN IF B.exc # "ok" THEN <<"P:C18:no-exception">>
      ELSE Fails([k \in 1..Len(B.qs) |-> <<name(B.qs[k]), B.qs[k].exc = "ok" /\ qok(B.qs[k])>>]
+                \o [k \in 1..Len(B.qs2) |-> <<name(B.qs2[k]), B.qs2[k].exc = "ok" /\ qokr(B.qs2[k], root2)>>]
                 \o << <<"P:C18:observer-pure", B.post = B.pre>> >>)
 Init == i \in 1..Len(Log) /\ done = FALSE
 Next == ~done /\ done' = TRUE /\ UNCHANGED i
